@@ -2,8 +2,8 @@ SPECIFICATION Spec
 CONSTANTS
   Mode = "direct"
   Flows = FALSE
-  MaxLines = 3
-  MaxBatch = 2
+  MaxLines = 5
+  MaxBatch = 3
   MaxTicks = 1
   MaxRestarts = 1
   MaxWrites = 0
